@@ -830,6 +830,24 @@ Proof.
   split; [reflexivity|]. split; [left; reflexivity|]. split; [left; reflexivity|]. split; [intros []|reflexivity].
 Qed.
 
+(** H30 (before cabaa94): a CLOSE answered with EINTR was submitted again. Descriptor 5 is opened,
+    closed explicitly (the kernel closes it and reports EINTR), the number is handed out again to a
+    socket, and the restarted close future closes the socket's descriptor: a close of a descriptor
+    that belongs to somebody else ([bad] for the second owner's later drop, which finds nothing). *)
+Definition h30_history_a : list event :=
+  [NewOp (COpen Regular); PollOp 0; RingPoll; KComplete 0 5 0 false; RingPoll; PollOp 0;
+   CloseFd 0; PollClose 0; RingPoll].
+Definition h30_history_b : list event :=
+  [NewOp (CSocket Regular); PollOp 1; RingPoll; KComplete 1 5 0 false; RingPoll; PollOp 1;
+   PollClose 0; RingPoll; DropFd 1; RingPoll].
+
+Lemma close_restarted_after_eintr_h30_refuted :
+  let s1 := fst (run step (init 4 0) h30_history_a) in
+  let s2 := fst (run step (restart_close_h30 s1 0) h30_history_b) in
+  let s2' := fst (run step s1 h30_history_b) in
+  closed s1 = [(5, Regular)] /\ bad s2 <> [] /\ bad s2' = [].
+Proof. vm_compute. split; [reflexivity|]. split; [discriminate|reflexivity]. Qed.
+
 Lemma all_closed_at_rest_refuted : ~ all_closed_at_rest.
 Proof.
   intros H. specialize (H 4 0 h12_inflight). cbv zeta in H.
